@@ -48,6 +48,44 @@ MANIFEST = {
 BOOT = 1000.0
 MAX_TICKS = 4096
 
+# Known findings of parent()/parents() (findings/C05.json). The driver prints three readings of the statement:
+#   spec        literal: the process named by ppid() unless younger; a dead caller gets NoSuchProcess whatever its PID
+#   spec_stop   the same with psutil's rule "the lowest listed PID has no parent" (applied after the identity check)
+#   spec_found  …with that rule applied BEFORE the identity check (psutil as found)
+# Region of FINDING_ROOT_PARENT = inputs on which spec_stop differs from spec (the lowest listed PID shows a parent and
+# the call gets to it); region of FINDING_ROOT_RECYCLED = inputs on which spec_found differs from spec_stop (the caller
+# is dead AND its PID is the lowest listed one). Inside a region the implementation must give exactly the literal
+# value or that region's reading; everywhere the implementation must equal the Lean model.
+FINDING_ROOT_PARENT = "C05-lowest-pid-parent"
+FINDING_ROOT_RECYCLED = "C05-recycled-lowest-pid"
+
+
+def spec_verdict(obs, m, accept=None):
+    """→ None (obs is the literal specification) | finding id (obs is the accepted deviation of that finding's
+    region) | "spec" (a failing input)"""
+    sp = m["spec"]
+    if obs == sp or (accept is not None and accept(obs)):
+        return None
+    ss = m.get("spec_stop", sp)
+    sf = m.get("spec_found", ss)
+    if ss is not None and ss != sp and obs == ss:
+        return FINDING_ROOT_PARENT
+    if sf is not None and sf != ss and obs == sf:
+        return FINDING_ROOT_RECYCLED
+    return "spec"
+
+
+def regions_of(m):
+    sp = m["spec"]
+    ss = m.get("spec_stop", sp)
+    sf = m.get("spec_found", ss)
+    out = []
+    if sp is not None and ss is not None and ss != sp:
+        out.append(FINDING_ROOT_PARENT)
+    if ss is not None and sf is not None and sf != ss:
+        out.append(FINDING_ROOT_RECYCLED)
+    return out
+
 facts = c05_facts.facts
 
 
@@ -764,15 +802,29 @@ def judge(case, obs, running, extra, m, res, source, record=True):
             res.disagree("model", inp, {"is_running": running}, {"is_running": m["running"]}, None,
                          note="is_running() differs from the model")
         return "model"
-    if spec_applies and obs != sp:
+    verdict = None
+    if spec_applies:
         if record:
-            res.disagree("spec", inp, obs, mo, sp, note="%s(): implementation differs from the specification" % call)
-        return "spec"
+            for fid in regions_of(m):
+                res.known_seen[fid] = res.known_seen.get(fid, 0) + 1
+                res.count("region:" + fid)
+        v = spec_verdict(obs, m)
+        if v == "spec":
+            if record:
+                res.disagree("spec", inp, obs, mo, sp, note="%s(): implementation differs from the specification" % call)
+            return "spec"
+        if v is not None:
+            # inside the region of a known finding, with exactly that finding's value: tolerated while the finding is
+            # listed; the comparison with the model below stays strict
+            if record:
+                res.disagree("spec", inp, obs, mo, sp, finding=v,
+                             note="%s(): implementation differs from the literal specification (known finding %s)" % (call, v))
+            verdict = "spec:" + v
     if obs != mo:
         if record:
             res.disagree("model", inp, obs, mo, sp, note="%s(): implementation differs from the Lean model" % call)
         return "model"
-    return None
+    return verdict
 
 
 def judge_dyn(case, obs, extra, m, res, source, record=True):
@@ -804,14 +856,27 @@ def judge_dyn(case, obs, extra, m, res, source, record=True):
     alt = m.get("alt_denied") or []
     if spec_applies and alt and record:
         res.count("spec_disjunctive:unreadable_mid_walk:%s" % ("access_denied" if obs.get("exc") == "AccessDenied" else "value"))
-    if spec_applies and obs != sp:
+    verdict = None
+    if spec_applies:
+        if record:
+            for fid in regions_of(m):
+                res.known_seen[fid] = res.known_seen.get(fid, 0) + 1
+                res.count("region:" + fid)
         # processes turned unreadable while children() walked: the value must be exact, or AccessDenied(c)
         # escapes for a c that was readable at the snapshot and is unreadable when examined (C05_children_outcomes)
-        if not (alt and obs.get("kind") == "exc" and obs.get("exc") == "AccessDenied" and obs.get("pid") in alt):
+        v = spec_verdict(obs, m, accept=lambda o: bool(alt) and o.get("kind") == "exc" and o.get("exc") == "AccessDenied"
+                         and o.get("pid") in alt)
+        if v == "spec":
             return dis("spec", obs, "%s(): implementation differs from the specification (richer world)" % case["call"])
+        if v is not None:
+            if record:
+                res.disagree("spec", inp, obs, mo, sp, finding=v,
+                             note="%s(): implementation differs from the literal specification (known finding %s; richer world)"
+                             % (case["call"], v))
+            verdict = "spec:" + v
     if obs != mo:
         return dis("model", obs, "%s(): implementation differs from the Lean model (richer world)" % case["call"])
-    return None
+    return verdict
 
 
 def mk_dyn(call, pid, t0, mk=None, events=None, oneshot=None, via_iter=False, pids_call=None, family="",
@@ -1016,6 +1081,14 @@ def dyn_corpus():
         cases.append(mk_dyn(call, 5, [[1, 0, 1, "R"], [5, 1, 15, "X"], [6, 5, 20, "R"]], mk=t, family="corpus:recycled-unreadable-caller"))
         cases.append(mk_dyn(call, 5, [[1, 0, 1, "R"], [5, 1, 15, "Z"], [6, 5, 20, "R"]], mk=t, family="corpus:recycled-zombie-caller"))
         cases.append(mk_dyn(call, 5, [[1, 0, 1, "R"], [5, 1, 10, "X"], [6, 5, 20, "R"]], mk=t, family="corpus:unreadable-caller-same-incarnation"))
+    # Props (audit round): the witnesses of the two known findings in the richer world (+ the new owner unreadable / a zombie)
+    for call in ("parent", "parents"):
+        for st in "RZX":
+            cases.append(mk_dyn(call, 2, [[2, 0, 15, st], [6, 2, 20, "R"]], mk=[[2, 0, 10], [6, 2, 20]], family="corpus:recycled-lowest-pid"))
+        for pid in (2, 7):
+            cases.append(mk_dyn(call, pid, [[2, 3, 5], [3, 0, 1], [7, 2, 9]], family="corpus:lowest-pid-has-parent"))
+        # the chain reaches the lowest PID 2 after it was recycled (look-up 4 = identity check of the second parent() call)
+        cases.append(mk_dyn(call, 7, [[2, 0, 5], [7, 2, 9]], events=[[4, 2, [2, 0, 50]]], family="corpus:recycled-lowest-pid-on-chain"))
     # Props (round 3): C05_vanishing_needs_skip — PID 6 is listed, its stat file is gone when ppid_map() gets there
     for call in CALLS:
         cases.append(mk_dyn(call, 1, [[1, 0, 1, "R"], [5, 1, 10, "R"], [6, 5, 20, "G"]], mk=t, family="corpus:listed-stat-gone"))
@@ -1178,6 +1251,15 @@ def correspond(ctx, res):
             cases.append(mk_case(call, 10, doc, t1=[r for r in doc if r[0] != 12], family="corpus:docstring-X-vanishes"))
             cases.append(mk_case(call, 5, [[1, 0, 1], [5, 1, 15], [6, 5, 20]], mk=[[1, 0, 1], [5, 1, 10], [6, 5, 20]],
                                  mid=[[1, 0, 1], [6, 5, 20]], family="corpus:gone-then-recycled"))
+        # Props: C05_recycled_lowest_pid_counterexample (the object was built for (2, start 10); PID 2 now belongs to a process
+        # started at 15 and is the lowest listed PID) and C05_lowest_pid_parent_counterexample (the lowest listed PID 2
+        # has a listed, older parent 3) — the witnesses of the two known findings
+        for call in CALLS:
+            cases.append(mk_case(call, 2, [[2, 0, 15], [6, 2, 20]], mk=[[2, 0, 10], [6, 2, 20]], family="corpus:recycled-lowest-pid"))
+            cases.append(mk_case(call, 2, [[2, 0, 15], [6, 2, 20]], mk=[[2, 0, 10], [6, 2, 20]], mid=[[6, 2, 20]],
+                                 family="corpus:recycled-lowest-pid"))
+            for pid in (2, 7):
+                cases.append(mk_case(call, pid, [[2, 3, 5], [3, 0, 1], [7, 2, 9]], family="corpus:lowest-pid-has-parent"))
         # process_iter() saw other owners of PIDs 20/30 (one older, one younger than the caller) before
         # the caller forked its workers into those PIDs
         seen_by_iter = [[1, 0, 1], [10, 1, 100], [20, 1, 50], [30, 1, 150]]
@@ -1280,6 +1362,22 @@ def correspond(ctx, res):
                         cases.append(mk_dyn(call, rows[i][0], t0, mk=mkr, family="exhaustive-states"))
                         tags.append("exhaustive-states")
             ex_desc.append("%d (3-process table, states in {R,Z,X,G}³; caller rotates)" % cnt)
+        # ---- exhaustive: every 2-process table × caller × the caller's PID recycled (new owner younger / older), incl. the
+        # lowest listed PID (region of the known finding C05-recycled-lowest-pid) — plain and richer world
+        cnt = 0
+        for rows in exhaustive_tables(2, [2, 3]):
+            for i, pid in enumerate((2, 3)):
+                for new_start in sorted({rows[i][2] + 1, max(0, rows[i][2] - 1)} - {rows[i][2]}):
+                    cnt += 1
+                    t0 = [list(r) for r in rows]
+                    t0[i][2] = new_start
+                    for call in CALLS:
+                        cases.append(mk_case(call, pid, t0, mk=rows, family="exhaustive-recycled"))
+                        tags.append("exhaustive-recycled")
+                        if call in ("parent", "parents"):
+                            cases.append(mk_dyn(call, pid, t0, mk=rows, family="exhaustive-recycled"))
+                            tags.append("exhaustive-recycled")
+        ex_desc.append("%d (2-process table, caller, start time of the caller's PID changed)" % cnt)
         # ---- exhaustive: every 2-process table seen by process_iter() × every 2-process table seen by the call
         cnt = 0
         for old in exhaustive_tables(2, [2, 3]):
@@ -1362,17 +1460,25 @@ def search(ctx, res, broken):
 # ------------------------------------------------------------------------------ shrink / replay / findings
 
 
-def _fails(ctx, impl, case):
+def _verdict(ctx, impl, case):
     class _R:
         known_seen = {}
 
         def count(self, *a, **k):
             pass
     try:
-        v = run_cases(ctx, impl, [case], _R(), "replay", record=False)
+        return run_cases(ctx, impl, [case], _R(), "replay", record=False)[0]
     except Exception:
-        return False
-    return v[0] == "spec"
+        return None
+
+
+def _fails(ctx, impl, case, want=None):
+    """does the case violate the specification? `want`: the same kind of violation as the original ("spec" = a failing
+    input outside every known region, "spec:<id>" = the accepted deviation of a known finding)"""
+    v = _verdict(ctx, impl, case)
+    if want is not None:
+        return v == want
+    return v is not None and v.startswith("spec")
 
 
 def _drop(case, pids):
@@ -1398,11 +1504,12 @@ def shrink(ctx, d):
     impl = Impl(ctx)
     try:
         allp = sorted({r[0] for k in ("mk", "mid", "t0", "t1", "iter", "statmemo") if case.get(k) for r in case[k]} - {case["pid"]})
-        if not _fails(ctx, impl, case):
+        want = _verdict(ctx, impl, case)
+        if want is None or not want.startswith("spec"):
             return d
-        keep = ddmin(allp, lambda ks: _fails(ctx, impl, _drop(case, set(allp) - set(ks))), max_tests=40) if len(allp) >= 2 else allp
+        keep = ddmin(allp, lambda ks: _fails(ctx, impl, _drop(case, set(allp) - set(ks)), want), max_tests=40) if len(allp) >= 2 else allp
         small = _drop(case, set(allp) - set(keep))
-        if not _fails(ctx, impl, small):
+        if not _fails(ctx, impl, small, want):
             small = case
         m = ctx.driver().batch([strip(small)])[0]
         obs, running, extra = impl.run_case(small)
@@ -1430,8 +1537,8 @@ def replay(ctx, rp, res):
 
 
 def check_finding(ctx, fnd):
-    """C05 has no open finding (C05-gone-then-recycled was fixed by 7deac49 in /repo; its witness is
-    part of the corpus). Kept harmless for an entry that might still be listed."""
+    """replay the witness of a known finding: "reproduces" while the implementation gives the finding's deviation,
+    "gone" once it gives the literal specification"""
     w = fnd.get("witness") or {}
     if not all(k in w for k in ("call", "pid", "mk", "t0")):
         return "unknown"
@@ -1440,6 +1547,9 @@ def check_finding(ctx, fnd):
     try:
         m = ctx.driver().batch([strip(case)])[0]
         obs, running, extra = impl.run_case(case)
-        return "gone" if obs == m["spec"] else "reproduces"
+        v = spec_verdict(obs, m)
+        if v is None:
+            return "gone"
+        return "reproduces" if v in (fnd.get("id"), "spec") else "unknown"
     finally:
         impl.close()
